@@ -74,13 +74,15 @@ func startOf(ends []int, i int) int {
 }
 
 type CaseCut struct {
-	Type  string `json:"type"`
-	V     *Value `json:"v"`
-	Cuts  []int  `json:"cuts,omitempty"`  // empty: every cut position 0..len-1
-	Prior *Value `json:"prior,omitempty"` // if set: the receiver has decoded this other message before it is given the prefix
+	Type  string  `json:"type"`
+	V     *Value  `json:"v"`
+	Cuts  []int   `json:"cuts,omitempty"`  // empty: every cut position 0..len-1
+	Prior *Value  `json:"prior,omitempty"` // if set: the receiver has decoded this other message before it is given the prefix
+	Pre   []PreOp `json:"pre,omitempty"`   // prior calls / process-wide settings
 }
 
 func oracleC11(c *CaseCut) *Failure {
+	defer runPrelude(c.Pre)()
 	enc, _, err, pan := LibEncode(c.V)
 	if err != nil || pan != nil {
 		return failf("C11/"+c.Type+"/encode", "canonical value not encodable: err=%v panic=%v", err, pan)
@@ -265,6 +267,10 @@ func TestC11(t *testing.T) {
 				o.BigProb, o.MaxList = 50, 1500
 				v, _ := GenValue(rt, tn, o)
 				c := &CaseCut{Type: tn, V: v}
+				c.Pre, _ = genPrelude(rt, tn, false)
+				if len(c.Pre) > 0 {
+					Col.Class("values-after-prior-calls", 1)
+				}
 				if hasVariableParts(tn) && rapid.IntRange(0, 2).Draw(rt, "used") == 0 {
 					po := GenOpts{Mode: Canonical, MaxList: 40}
 					c.Prior, _ = GenValue(rt, tn, po)
